@@ -84,7 +84,9 @@ def check(ctx, rep):
         rep.fail("R15b", "getblock", detail="block dispatcher missing")
     else:
         text = norm(gb.node)
-        ok = "getattr(self," in text and "geteadict()" in text
+        dyn = any(isinstance(n, ast.Call) and dotted(n.func) == "getattr" and n.args and norm(n.args[0]) == "self" for n in ast.walk(gb.node))
+        table = all(f"self.get{nm[1:].lower()}block" in text for nm in ("+INFO", "+ADMIN", "+VIEWS"))
+        ok = (dyn or table) and ("geteadict()" in text or "getea(" in text)
         rep.add("R15b", f"{gb.qualname}: extended attributes first, then get<name>block", ok, ctx.where(gb),
                 "" if ok else "getblock does not dispatch to the entry's attributes and the get<name>block renderers", key="R15b|dispatch")
 
